@@ -12,15 +12,15 @@ MOD = S("models-corr", "corr")
 
 PROPS = {
  "C01": {"level": "other", "lean_module": "ClipVerif.Props.C01", "stages": [GEN, S("c01-search")]},
- "C02": {"level": "other", "lean_module": "ClipVerif.Props.C02", "stages": [S("c02-search")]},
+ "C02": {"level": "other", "lean_module": "ClipVerif.Props.C02", "stages": [GEN, S("c02-search")]},
  "C03": {"level": "other", "lean_module": "ClipVerif.Props.C03", "stages": [MOD, S("c03-search")]},
- "C04": {"level": "other", "lean_module": "ClipVerif.Props.C04", "stages": [MOD, S("c04-search")]},
+ "C04": {"level": "other", "lean_module": "ClipVerif.Props.C04", "stages": [GEN, S("c04-search")]},
  "C05": {"level": "other", "lean_module": "ClipVerif.Props.C05", "stages": [MOD, S("c05-search")]},
  "C06": {"level": "other", "lean_module": "ClipVerif.Props.C06", "stages": [GEN, S("c06-search")]},
  "C07": {"level": "other", "lean_module": "ClipVerif.Props.C07", "stages": [GEN, S("c07-search")]},
  "C08": {"level": "other", "lean_module": "ClipVerif.Props.C08", "stages": [MOD, S("c08-search")]},
  "C09": {"level": "other", "lean_module": "ClipVerif.Props.C09", "stages": [GEN, S("c09-search")]},
- "C10": {"level": "other", "lean_module": "ClipVerif.Props.C10", "stages": [S("c10-search")]},
+ "C10": {"level": "other", "lean_module": "ClipVerif.Props.C10", "stages": [MOD, S("c10-search")]},
  "C11": {"level": "other", "lean_module": "ClipVerif.Props.C11", "stages": [GEN, S("c11-search")]},
  "C12": {"level": "other", "lean_module": "ClipVerif.Props.C12", "stages": [S("c12-search")]},
  "C13": {"level": "other", "lean_module": "ClipVerif.Props.C13", "stages": [GEN, S("c13-search")]},
